@@ -136,6 +136,16 @@ CHECKS["C03"] = dict(
           "spectra is not covered (known finding F18) (partial)."),
     design="6/C03", technique="Coq proof over R (bilinear-form arguments) + in-Coq certificate check of returned eigenpairs")
 
+CHECKS["C04"] = dict(
+    text=("Theorems over R: for every Q with Q^T Q = I (rotations AND reflections) and translation b the triangle stiffness and mass "
+          "triplet lists of the moved mesh are identical to the original ones (entries depend on edge Gram data only; nsatz + Lagrange); "
+          "4*area scales by s^2 and cotangent entries are scale-free, so eigenvalues scale by 1/s^2; area- and volume^(2/3)-normalised "
+          "spectra of scaled copies coincide (cube-root uniqueness); reweight_ev divides the i-th value by i; compute_distance is a "
+          "metric value. Spectral invariance itself additionally relies on the solver contract of C03 and is decided by metamorphic runs "
+          "on the implementation (rigid/reflect/relabel/reorder/rotate/flip/scale, in-place rescaling history); the dictionary and "
+          "normalize_ev (with vol**(2/3) certified by cubing in Coq) are tied by correspondence."),
+    design="6/C04", technique="Coq proof over R (nsatz/field) + metamorphic oracles + vm_compute correspondence")
+
 NOT_YET = {}
 
 
